@@ -205,3 +205,53 @@ func VH_C19_history() {
 	}
 	vobs("final", c.Count(), c.StringCount(), c.PointCount(), c.TotalWeight())
 }
+
+// VH_C19_same_footprint: geometries of different size and kind over one bounding rectangle replace one another
+// under one id (a rectangle, a three-point line along it, a polygon around it, a point, two coincident points, an
+// empty geometry, a string): after every replacement and after the final delete the counters (objects, strings,
+// points, weight), the bounds and all access paths agree with the objects Get returns.
+//verif:cfg b_kinds=8_(point,_MultiPoint_of_two_coincident_points,_rectangle,_3-point_LineString_with_the_rectangle's_bounding_box,_Polygon_with_it,_empty_geometry,_two_strings_of_different_length) b_history=3_replacements_of_one_id_next_to_a_second_object,_then_delete b_fields=none|one
+func VH_C19_same_footprint() {
+	c := New()
+	var st [3]vhDesc
+	other := object.New("b", geojson.NewSimplePoint(geometry.Point{X: -30, Y: 5}), 0, field.List{})
+	c.Set(other)
+	st[1] = vhDesc{true, other}
+	lo, hi := geometry.Point{X: 10, Y: -45}, geometry.Point{X: 20, Y: 20}
+	mk := func(k int) geojson.Object {
+		switch k {
+		case 0:
+			return geojson.NewSimplePoint(hi)
+		case 1:
+			return geojson.NewMultiPoint([]geometry.Point{hi, hi})
+		case 2:
+			return geojson.NewRect(geometry.Rect{Min: lo, Max: hi})
+		case 3:
+			return geojson.NewLineString(geometry.NewLine([]geometry.Point{lo, {X: 15, Y: 0}, hi}, nil))
+		case 4:
+			return geojson.NewPolygon(geometry.NewPoly([]geometry.Point{lo, {X: hi.X, Y: lo.Y}, hi, {X: lo.X, Y: hi.Y}, lo}, nil, nil))
+		case 5:
+			return geojson.NewMultiPoint(nil)
+		case 6:
+			return String("v")
+		}
+		return String("a much longer value")
+	}
+	for step := 0; step < 3; step++ {
+		var fl field.List
+		if vnondetBool() {
+			fl = fl.Set(field.Make("f", "1"))
+		}
+		o := object.New("a", mk(vchoose(8)), 0, fl)
+		prev := c.Set(o)
+		if st[0].present {
+			vassert("C19.set_returns_previous", prev == st[0].obj)
+		}
+		st[0] = vhDesc{true, o}
+		vhCheck(c, &st)
+	}
+	c.Delete("a")
+	st[0] = vhDesc{}
+	vhCheck(c, &st)
+	vobs("footprint", c.Count(), c.PointCount(), c.TotalWeight())
+}
